@@ -1220,6 +1220,10 @@ class Interp:
             if o[1] + "." + attr in ("numpy.pi", "math.pi"):
                 return math.pi
             return ("external", o[1] + "." + attr)
+        if isinstance(o, tuple) and o and o[0] in ("func", "closure", "boundmethod", "classmethod") and attr in ("__name__", "__qualname__", "__doc__"):
+            if attr == "__doc__":
+                return None
+            return o[2].name if o[0] == "func" else o[1].name if o[0] == "closure" else o[2]
         if isinstance(o, tuple) and o and o[0] == "class":
             c = o[1]
             if attr in ("__name__", "__qualname__"):
@@ -1338,6 +1342,12 @@ class Interp:
                 return callable(args[0]) or (isinstance(args[0], tuple) and bool(args[0]) and args[0][0] in ("func", "boundmethod", "closure", "lambda", "class", "classmethod", "partial", "external"))
             if fname == "repr" and len(args) == 1 and isinstance(args[0], (int, str, float, type(None), tuple, list)):
                 return repr(args[0])
+            if fname in ("bytes", "len", "int", "bool", "iter", "list", "tuple") and len(args) == 1 and isinstance(args[0], Obj) and args[0].cls is not None:
+                # the conversion protocols of a class of the repository
+                dunder = {"bytes": "__bytes__", "len": "__len__", "int": "__int__", "bool": "__bool__", "iter": "__iter__", "list": "__iter__", "tuple": "__iter__"}[fname]
+                if self.repo.lookup(args[0].cls, dunder) is not None:
+                    r_ = self.method(args[0], dunder, [], {}, e)
+                    return {"list": list, "tuple": tuple}.get(fname, lambda x_: x_)(r_)
             f = {"len": len, "range": lambda *a: list(range(*a)), "list": list, "tuple": tuple, "int": int, "float": float, "abs": abs, "min": min, "max": max,
                  "sum": sum, "enumerate": lambda x, *a: list(enumerate(x, *a)), "zip": lambda *a: list(zip(*a)), "reversed": lambda x: list(reversed(x)),
                  "sorted": sorted, "str": str, "bool": bool, "all": all, "any": any, "set": set, "slice": slice,
